@@ -82,6 +82,21 @@ def gen_budget(rng, profile='migrate', year=2025):
         for nm, lay_, rws in (('Debits', lay_d, deb), ('Credits', lay_c, cre)):
             b['sources'].append({'name': nm, 'file': 'data/both.csv', 'layout': lay_, 'rows': rws, 'supplemental': False,
                                  'settings': st.source_settings(lay_, nm, 'data/both.csv'), 'shared': 'debit' if nm == 'Debits' else 'credit'})
+    dup_rule = None
+    if profile == 'full' and rng.random() < 0.35:
+        # two rows identical in date, description and amount that differ only in a captured column, and a rule that reads it:
+        # a row is more than its description
+        cands = [s for s in b['sources'] if s['layout']['mode'] == 1 and s['layout']['extras'] and s['rows'] and not s.get('shared')]
+        if cands:
+            s_ = rng.choice(cands)
+            j = rng.randrange(len(s_['rows']))
+            orig = s_['rows'][j]
+            dup = dict(orig, caps=dict(orig['caps']))
+            e = s_['layout']['extras'][0]
+            dup['caps'][e] = 'TWIN' if orig['caps'].get(e) != 'TWIN' else 'TWIN2'
+            s_['rows'].insert(j + rng.choice([0, 1]), dup)
+            dup_rule = {'name': 'By Field', 'match': 'field.%s == "%s"' % (e, dup['caps'][e]), 'category': 'Fielded', 'subcategory': 'Twin',
+                        'merchant': '', 'tags': ['twin'], 'priority': 99, 'lets': [], 'fields': []}
     fields = sorted({e for s in b['sources'] for e in s['layout']['extras'] if s['layout']['mode'] == 1})
     supp_name = None
     if profile == 'full' and rng.random() < 0.4:
@@ -129,6 +144,8 @@ def gen_budget(rng, profile='migrate', year=2025):
             if used and rng.random() < 0.5 and rule['match'].startswith('contains("'):
                 w = rng.choice(used)
                 rule['match'] = 'contains("%s")' % w + rule['match'][rule['match'].index('")') + 2:]
+        if dup_rule is not None:
+            m['rules'].insert(0, dup_rule)
         if supp_name and rng.random() < 0.8:
             # a rule whose verdict depends on the supplemental rows (placed first so that it decides in first_match mode)
             ident = rng.choice([supp_name, supp_name.lower(), supp_name.upper(), supp_name.title()])
